@@ -55,8 +55,15 @@ func (self *BinaryConv) doNative(ctx context.Context, src []byte, desc *thrift.T
 	jp := rt.Mem2Str(src)
 	fsm.Init(0, unsafe.Pointer(desc))
 
+	// NOTICE: once the native base64 decoder runs short of room it writes the rest of the string it is decoding
+	// (always shorter than src) without looking at the capacity. So the capacity it is told ends len(src) bytes
+	// before the real one, and what it may write behind it is still inside the buffer
+	rt.GuardSlice(buf, 2*len(src))
 exec:
+	rt.GuardSlice(buf, len(src))
+	(*rt.GoSlice)(unsafe.Pointer(buf)).Cap -= len(src)
 	ret = native.J2T_FSM(fsm, buf, &jp, self.flags)
+	(*rt.GoSlice)(unsafe.Pointer(buf)).Cap += len(src)
 	if ret != 0 {
 		cont, e := self.handleError(ctx, fsm, buf, src, req, ret, top)
 		if cont && e == nil {
